@@ -4,7 +4,9 @@ Local Open Scope Z_scope.
 
 Inductive observed := ORedial | OReturnErr | OReturnNil | OContinue | OHang.
 
-Record case := mkTd {
+From CR Require Export Model.Listener.
+
+Record tdcase := mkTd {
   c_monitor : bool;
   c_fault : fault;
   c_flood : Z;              (* solicitations queued at the fault instant *)
@@ -16,10 +18,17 @@ Record case := mkTd {
   c_leak : bool             (* goroutines left blocked at the end *)
 }.
 
+Inductive case :=
+| CTd (c : tdcase)
+| CRx (script : list read) (gaps : list Z) (running : bool).  (* receive retry timing on a monitor *)
+
+Fixpoint zl_eqb (a b : list Z) : bool :=
+  match a, b with [], [] => true | x :: a', y :: b' => (x =? y) && zl_eqb a' b' | _, _ => false end.
+
 Definition obs_eqb (o : observed) (r : reaction) : bool :=
   match o, r with ORedial, Redial | OReturnErr, ReturnErr | OContinue, Continue => true | _, _ => false end.
 
-Definition agree (c : case) : bool :=
+Definition agree_td (c : tdcase) : bool :=
   obs_eqb (c_outcome c) (react (c_fault c)) && (react_delay (c_fault c) <=? c_delay c) && (c_delay c <=? react_delay (c_fault c) + c_slack c).
 
 (* specification from the property text: recoverable causes (link change, non-permission system
@@ -29,7 +38,7 @@ Definition recoverable (f : fault) : bool :=
   match f with FReadSyscall | FWriteSyscall | FLink => true | _ => false end.
 Definition harmless (f : fault) : bool := match f with FWatchClosed => true | _ => false end.
 
-Definition holds (c : case) : bool :=
+Definition holds_td (c : tdcase) : bool :=
   negb (c_leak c) && (c_io_after c =? 0) && c_canary c &&
   (0 <=? c_delay c) && (c_delay c <=? 200000000 + c_slack c) &&
   match c_outcome c with
@@ -37,6 +46,31 @@ Definition holds (c : case) : bool :=
   | OReturnErr => negb (recoverable (c_fault c)) && negb (harmless (c_fault c))
   | OContinue => harmless (c_fault c)
   | OReturnNil | OHang => false
+  end.
+
+(* receive retry spec from the property text: the j-th consecutive timeout (j = 1..4) is followed by a
+   wait of (j-1) x 50 ms and another read; the 5th ends the listener; a received message resets j *)
+Fixpoint spec_gaps (j : nat) (script : list read) : list Z * bool :=
+  match script with
+  | [] => ([], true)
+  | RdErr :: _ => ([], false)
+  | RdTimeout :: rest =>
+      if Nat.leb 4 j then ([], false)
+      else let (g, b) := spec_gaps (S j) rest in (Z.of_nat j * 50000000 :: g, b)
+  | RdMsg _ _ _ :: rest => let (g, b) := spec_gaps 0 rest in (0 :: g, b)
+  end.
+
+Definition agree (c : case) : bool :=
+  match c with
+  | CTd c => agree_td c
+  | CRx script gaps running =>
+      zl_eqb (read_gaps 0 script) gaps &&
+      Bool.eqb running (match out (listen 0 script) with Pending => true | _ => false end)
+  end.
+Definition holds (c : case) : bool :=
+  match c with
+  | CTd c => holds_td c
+  | CRx script gaps running => let (g, b) := spec_gaps 0 script in zl_eqb g gaps && Bool.eqb b running
   end.
 
 Definition known (c : case) : N := 0%N.
